@@ -34,12 +34,21 @@ Recorded line (one JSON object per event, see PresenceTrace.tla):
           by an administrator thread under the same turnstile -- abegin {kind kill|unreg,
           h, a}, acall {s 900, rk, rh, ra, op, path, res, w, fired} = ONE ZooKeeper
           call of presence.kill_node / EndpointPresence.unregister_*, aend {res}
+  _unschedule (World(ext=True), trace/app/zk.py): the scheduler's place {a, h} / withdraw
+          {a, h} / rmroot (atomic, set-up client); a host publishes a trace event through
+          the real publish() under the turnstile -- pbegin {h, a, ty}, pcall {s 950+i, rh,
+          ra, op, pk (trace | finished | placement | scheduled | other), path, res, found
+          (what exists returned), w}, pend {res}
   post    nodes {path: {d, o}}, pres {host: {path: container}} (the services' maps),
           queue {host: [[kind, c]]}, active {host: [c]}, sess {host: n}, linger [n],
           next {host: [op, path] the call the request in flight is stopped at, or []},
-          anext [op, path] the call the helper run is stopped at, or []
+          anext [op, path] the call the helper run is stopped at, or [],
+          sch {instance: /scheduled/<app> exists}, plc {instance: [hosts the scheduler placed
+          it on]}, proot (/placement exists), fin {instance: /finished/<app> exists},
+          pnext [op, path kind] the call the publication is stopped at, or []
 """
 import glob as _glob
+import hashlib
 import logging
 import os
 import shutil
@@ -53,6 +62,7 @@ core.ensure_repo_on_path()
 
 WATCHDOG_S = 60.0
 ADMIN_SESSION = 900     # session of the administrator in the log (AdmSess in Presence.tla)
+PUB_SESSION = 950       # + host index: the host's trace-event publisher (PubSess)
 _REAL_GLOB = _glob.glob
 
 
@@ -102,7 +112,10 @@ def make_scn(name, conts, hosts=('host1', 'host2'), endpoints=('http',), identit
                sch={a: '/scheduled/' + app[a] for a in insts},
                sproot='/server.presence',
                sp={h: '/server.presence/%s#%010d' % (h, i + 1) for i, h in enumerate(hosts)},
-               iorder=sorted(insts, key=lambda a: app[a]))
+               # the order zkfake's get_children lists the placements in (a fixed scramble)
+               iorder=sorted(insts, key=lambda a: hashlib.md5(app[a].encode('utf8')).digest()),
+               fin={a: '/finished/' + app[a] for a in insts},
+               plcp={h: {a: '/placement/%s/%s' % (h, app[a]) for a in insts} for h in hosts})
     return dict(name=name, hosts=list(hosts), conts=[c for c, _ in conts],
                 inst={c: a for c, a in conts}, paths=paths, data=data,
                 app=app, rid=rid, port=port, endpoints=list(endpoints), identity=identity,
@@ -290,7 +303,14 @@ class GatedClient(zkfake.ZkFakeClient):
         return self._run(lambda: zkfake.ZkFakeClient.get_children(self, *a, **k))
 
     def exists(self, *a, **k):
-        return self._run(lambda: zkfake.ZkFakeClient.exists(self, *a, **k))
+        def fn():
+            r = zkfake.ZkFakeClient.exists(self, *a, **k)
+            self.cur['found'] = r is not None
+            return r
+        return self._run(fn)
+
+    def set_acls(self, *a, **k):
+        return self._run(lambda: zkfake.ZkFakeClient.set_acls(self, *a, **k))
 
     def ensure_path(self, *a, **k):
         return self._run(lambda: zkfake.ZkFakeClient.ensure_path(self, *a, **k))
@@ -338,6 +358,11 @@ class World:
         self.nhelp = 0
         self.admin = None
         self.aslot = None           # helper run in flight
+        self.pslot = None           # publication in flight
+        self.pubs = {}              # host -> publisher client
+        self.npub = 0
+        self.nsch = 0
+        self.sub_placed = set()     # (host, instance) placement nodes made by submit()
         self.services = services
         self.base = _base_service
         self.cls = presence_service.PresenceResourceService
@@ -438,6 +463,9 @@ class World:
                     node.create(scn['ext']['sp'][h], b'', ephemeral=True)
                 self.admin = GatedClient(self.store, self)
                 self.sid[self.admin.session] = ADMIN_SESSION
+                for i, h in enumerate(scn['hosts']):
+                    self.pubs[h] = GatedClient(self.store, self)
+                    self.sid[self.pubs[h].session] = PUB_SESSION + 1 + i
             self.hosts = {}
             for h in scn['hosts']:
                 self.hosts[h] = _Host(h)
@@ -496,6 +524,8 @@ class World:
                     self.turn.abandon(host.slot)
             if self.aslot is not None and self.aslot.state != 'done':
                 self.turn.abandon(self.aslot)
+            if self.pslot is not None and self.pslot.state != 'done':
+                self.turn.abandon(self.pslot)
         finally:
             for p in reversed(self._patches):
                 try:
@@ -517,8 +547,8 @@ class World:
     def post(self):
         nodes = {}
         for p, n in sorted(self.store.nodes.items()):
-            if p in self.static:
-                continue
+            if p in self.static or p.startswith(('/trace', '/finished', '/placement', '/scheduled')):
+                continue                 # not presence nodes; /scheduled, /placement: see sch, plc
             d = n.data
             nodes[p] = dict(d=d.decode('utf-8', 'replace') if isinstance(d, bytes) else str(d),
                             o=self._sess(n.owner))
@@ -535,10 +565,28 @@ class World:
             sess[h] = self._sess(host.client.session) if host.up else 0
             slot = host.slot
             nxt[h] = list(slot.pending) if slot is not None and slot.state == 'gate' else []
-        aslot = self.aslot
+        aslot, pslot = self.aslot, self.pslot
+        ext = self.scn['ext']
+        have = self.store.nodes
+        plc = {a: [h for h in self.scn['hosts']
+                   if ext['plcp'][h][a] in have and (h, a) not in self.sub_placed]
+               for a in self.scn['paths']}
+        pnext = []
+        if pslot is not None and pslot.state == 'gate':
+            pnext = [pslot.pending[0], self._pkind(pslot.pending[1])]
         return dict(nodes=nodes, pres=pres, queue=queue, active=active, sess=sess, next=nxt,
                     linger=sorted(self._sess(x) for x in self.linger),
-                    anext=list(aslot.pending) if aslot is not None and aslot.state == 'gate' else [])
+                    anext=list(aslot.pending) if aslot is not None and aslot.state == 'gate' else [],
+                    sch={a: ext['sch'][a] in have for a in self.scn['paths']}, plc=plc,
+                    proot='/placement' in have,
+                    fin={a: ext['fin'][a] in have for a in self.scn['paths']}, pnext=pnext)
+
+    def _pkind(self, path):
+        for kind, pre in (('trace', '/trace/'), ('finished', '/finished/'),
+                          ('placement', '/placement/'), ('scheduled', '/scheduled/')):
+            if path.startswith(pre):
+                return kind
+        return 'other'
 
     def _log(self, line):
         line['post'] = self.post()
@@ -614,8 +662,8 @@ class World:
         if self.ext:                     # the scheduler's placement, read by kill_node
             pl = '%s/%s' % (scn['ext']['plc'][h], scn['app'][a])
             if pl not in self.store.nodes:
-                self._setup.create(pl, b'')
-                self.static.add(pl)
+                self._setup.create(pl, b'', makepath=True)
+                self.sub_placed.add((h, a))
         stamp = (1000000 + len(self.submitted)) * 10 ** 9
         os.utime(self._link(h, c), ns=(stamp, stamp), follow_symlinks=False)
         host.queue.append(('create', c))
@@ -868,6 +916,106 @@ class World:
         self._log(dict(ev='aend', res=res))
         return True
 
+    # -- trace/app/zk.py: the scheduler's placement, publish() and _unschedule() ------
+    def place(self, a, h):
+        """The scheduler places instance a on server h."""
+        ext = self.scn['ext']
+        if not self.ext or a not in self.scn['paths'] or h not in self.hosts or \
+                ext['plcp'][h][a] in self.store.nodes:
+            return False
+        self._setup.create(ext['plcp'][h][a], b'', makepath=True)
+        self.nsch += 1
+        self.schedule.append(('Place', [a, h]))
+        self._log(dict(ev='place', a=a, h=h))
+        return True
+
+    def withdraw(self, a, h):
+        """The scheduler takes instance a off server h (placed nowhere until re-placed)."""
+        ext = self.scn['ext']
+        if not self.ext or a not in self.scn['paths'] or h not in self.hosts or \
+                ext['plcp'][h][a] not in self.store.nodes or (h, a) in self.sub_placed:
+            return False
+        self._setup.delete(ext['plcp'][h][a])
+        self.nsch += 1
+        self.schedule.append(('Withdraw', [a, h]))
+        self._log(dict(ev='withdraw', a=a, h=h))
+        return True
+
+    def rmroot(self):
+        """/placement does not exist (cell being set up / cleaned)."""
+        if not self.ext or '/placement' not in self.store.nodes or \
+                any(p.count('/') > 2 for p in self.store.nodes if p.startswith('/placement/')):
+            return False
+        self._setup.delete('/placement', recursive=True)
+        self.nsch += 1
+        self.schedule.append(('RmRoot', [1]))
+        self._log(dict(ev='rmroot'))
+        return True
+
+    def can_pbegin(self):
+        return self.ext and self.pslot is None
+
+    def pbegin(self, h, a, ty):
+        """Host h publishes a trace event of instance a (treadmill.trace.app.zk.publish,
+        as its appevents process does): for a terminal event this ends in _unschedule."""
+        if not self.can_pbegin() or h not in self.hosts or a not in self.scn['paths']:
+            return False
+        from treadmill.trace.app import zk as tzk
+        client = self.pubs[h]
+        self.npub += 1
+        when = '%d.0' % (1500000000 + self.npub)
+        data = {'finished': '0.0', 'killed': 'oom', 'aborted': 'presence'}.get(ty, '')
+        app = self.scn['app'][a]
+        slot = _Slot(h, ty, a)
+
+        def fn():
+            tzk._HOSTNAME = h            # pylint: disable=protected-access
+            tzk.publish(client, when, app, ty, data, None)
+        self.pslot = slot
+        self.turn.start(slot, fn)
+        self.schedule.append(('PubBegin', [h, a, ty]))
+        self._log(dict(ev='pbegin', h=h, a=a, ty=ty))
+        return True
+
+    def can_pcall(self):
+        return self.pslot is not None and self.pslot.state == 'gate'
+
+    def pcall(self):
+        if not self.can_pcall():
+            return False
+        slot = self.pslot
+        client = self.pubs[slot.host]
+        self.calls = []
+        self.turn.step(slot)
+        if len(self.calls) != 1 or self.calls[0][0] is not client:
+            raise tlc.MachineryError('turnstile: %d ZooKeeper calls in one publication step' % len(self.calls))
+        rec = self.calls[0][1]
+        self.retries = []
+        self.schedule.append(('PCall', [1]))
+        self._log(dict(
+            ev='pcall', s=self._sess(client.session), rh=slot.host, ra=slot.cont, ty=slot.kind,
+            op=rec['op'], pk=self._pkind(rec['path']), path=rec['path'], res=rec['res'],
+            found=bool(rec.get('found', False)),
+            w=[dict(op=op, path=p, o=-1 if o is None else self._sess(o), a=bool(a))
+               for op, p, _s, o, a in rec['w']]))
+        return True
+
+    def can_pend(self):
+        return self.pslot is not None and self.pslot.state == 'done'
+
+    def pend(self):
+        if not self.can_pend():
+            return False
+        slot = self.pslot
+        slot.thread.join(WATCHDOG_S)
+        self.pslot = None
+        res = 'ok'
+        if slot.exc is not None:
+            res = 'exc:' + (slot.exc if isinstance(slot.exc, str) else type(slot.exc).__name__)
+        self.schedule.append(('PEnd', [1]))
+        self._log(dict(ev='pend', res=res))
+        return True
+
     # -- schedules -----------------------------------------------------------------
     def apply(self, act, args):
         """One action of a schedule; False if it does not apply to the state the
@@ -899,6 +1047,24 @@ class World:
             return self.acall(args[0] if args else None)
         if act == 'AEnd':
             return self.aend()
+        if act == 'Place':
+            return self.place(args[0], args[1])
+        if act == 'Withdraw':
+            return self.withdraw(args[0], args[1])
+        if act == 'RmRoot':
+            return self.rmroot()
+        if act == 'PubBegin':
+            return self.pbegin(args[0], args[1], args[2])
+        if act == 'PCall':
+            return self.pcall()
+        if act == 'PEnd':
+            return self.pend()
+        if act == 'PRun':                # hand-written schedules: a whole publication
+            if not self.pbegin(args[0], args[1], args[2]):
+                return False
+            while self.can_pcall():
+                self.pcall()
+            return self.pend()
         if act == 'ARun':                # hand-written schedules: the helper run to its end
             while self.can_acall():
                 self.acall()
@@ -968,6 +1134,13 @@ class World:
             if n > 200:
                 raise tlc.MachineryError('helper run does not terminate')
         self.aend()
+        n = 0
+        while self.can_pcall():
+            self.pcall()
+            n += 1
+            if n > 200:
+                raise tlc.MachineryError('publication does not terminate')
+        self.pend()
 
 
 def run_schedule(scn, schedule, max_expire=2, ext=False):
@@ -1026,6 +1199,39 @@ def run_random(scn, rng, steps, max_expire=2, p_expire=0.04, ext=False):
                 world.apply(act, [h, live])
             else:
                 world.apply(act, args)
+        world.drain()
+        return world.lines, world.schedule, world.skipped
+    finally:
+        world.close()
+
+
+def run_random_unsched(scn, rng, steps, max_pub=3, max_sched=5):
+    """A seeded random schedule of the scheduler's placement changes and the hosts'
+    trace-event publications (trace/app/zk.py), chosen on line."""
+    root = tlc.scratch('verif-c17-')
+    world = World(scn, root, max_expire=0, ext=True)
+    try:
+        types = ['finished', 'killed', 'aborted', 'configured']
+        for _ in range(steps):
+            acts = []
+            if world.can_pcall():
+                acts += [('PCall', [1])] * 3
+            if world.can_pend():
+                acts += [('PEnd', [1])] * 3
+            if world.can_pbegin() and world.npub < max_pub:
+                for h in scn['hosts']:
+                    for a in scn['paths']:
+                        acts.append(('PubBegin', [h, a, rng.choice(types)]))
+            if world.nsch < max_sched:
+                for h in scn['hosts']:
+                    for a in scn['paths']:
+                        acts.append(('Place', [a, h]))
+                        acts.append(('Withdraw', [a, h]))
+                acts.append(('RmRoot', [1]))
+            if not acts:
+                break
+            act, args = rng.choice(acts)
+            world.apply(act, args)
         world.drain()
         return world.lines, world.schedule, world.skipped
     finally:
